@@ -374,6 +374,10 @@ func wideBeforeHazard(s string) bool {
 	return false
 }
 
+var upperTag = regexp.MustCompile(`</?[a-z]*[A-Z]`)
+var upperAttr = regexp.MustCompile(`\s[:@#]?[A-Z][A-Za-z-]*=`)
+var numericRef = regexp.MustCompile(`&#[xX]?[0-9a-fA-F]+;`)
+var selfClosedNonVoid = regexp.MustCompile(`<(slot|my-card|template|x-icon|div)\b[^>]*/>`)
 var digitRef = regexp.MustCompile(`&[A-Za-z]+[0-9]`)
 var mustacheRe = regexp.MustCompile(`(?s)\{\{(.*?)\}\}`)
 
@@ -972,6 +976,30 @@ func classify(c Case) (bool, []string) {
 	}
 	if strings.Contains(c.source(), "\r\n") {
 		add("crlf")
+	}
+	if src := c.source(); strings.Contains(strings.ReplaceAll(src, "\r\n", ""), "\r") {
+		add("spelling:bare-CR")
+	}
+	if strings.HasPrefix(c.Body, "\uFEFF") {
+		add("spelling:BOM")
+	}
+	if upperTag.MatchString(c.Body) {
+		add("spelling:upper/mixed-case-tag")
+		if c.Doc && c.Doctype == "" {
+			add("spelling:upper/mixed-case-<html>-without-doctype")
+		}
+	}
+	if upperAttr.MatchString(c.Body) {
+		add("spelling:upper/mixed-case-attribute")
+	}
+	if numericRef.MatchString(c.Body) {
+		add("spelling:numeric-reference")
+	}
+	if selfClosedNonVoid.MatchString(c.Body) {
+		add("spelling:self-closed-non-void")
+	}
+	if strings.ContainsAny(c.Gap, " \t") {
+		add("spelling:blanks-after-front-matter")
 	}
 	if c.Indent != 0 || c.NoFinal {
 		add("options:non-default")
